@@ -954,6 +954,9 @@ func zvC14Catalogue() (full []*zvC14Term, core, wide []int) {
 		{"pl-ex{4/8,4/24}", zvC14Cond{PLs: []zvC14PL{{Pats: []zvC14Pfx{zvC14P4(8), zvC14P4(24)}, M: &ex}}}}, // 29
 		{"rf4/8r8-8", rf(zvC14P4(8), rng(8, 8))},                                                            // 30
 		{"static&com1", zvC14Cond{Protos: []uint8{static}, Coms: []uint32{com(1)}}},                         // 31
+		{"rf4/8r16-32", rf(zvC14P4(8), rng(16, 32))},                                                        // 32 (differs from 3 only in max)
+		{"rf4/8r8-24", rf(zvC14P4(8), rng(8, 24))},                                                          // 33 (differs from 3 only in min)
+		{"pl{4/8}", zvC14Cond{PLs: []zvC14PL{{Pats: []zvC14Pfx{zvC14P4(8)}}}}},                              // 34 (differs from 28 only in the list's matcher)
 	}
 	accept, reject := zvC14Act{K: "accept"}, zvC14Act{K: "reject"}
 	lp := func(v uint32) zvC14Act { return zvC14Act{K: "local_pref", V: v} }
